@@ -862,6 +862,12 @@ func renderPath(v AV) (string, bool) {
 // variable name, into <outdir>/<stem>.go opened truncating; no failing step is passed over.
 // isContextType: context.Context.
 func isContextType(t types.Type) bool {
+	if pt, ok := t.(*types.Pointer); ok {
+		// an *http.Client handed down (timeouts, transport): how the request is made, not what
+		// is requested or written
+		n, ok := pt.Elem().(*types.Named)
+		return ok && n.Obj().Pkg() != nil && n.Obj().Pkg().Path() == "net/http" && n.Obj().Name() == "Client"
+	}
 	n, ok := t.(*types.Named)
 	return ok && n.Obj().Pkg() != nil && n.Obj().Pkg().Path() == "context" && n.Obj().Name() == "Context"
 }
